@@ -89,6 +89,23 @@ def run(tier, seed, rng):
         v2 = custom(f"{b} = Int(1)\n    {a} = Int(2)")
         hists.append([(False, [dict(variant=v1)]), (False, [dict(variant=v2)])])
         hists.append([(True, [dict(variant=v2), dict(variant=v1)])])
+    # ---- declarations whose generated code is TEXTUALLY equal although they differ (fields without struct code are reached through
+    # the field table: Int(3) / Int(5), odd widths under 'big' / 'little'; annotations off): same cookie by right, one process --
+    # every class defined so far must go on behaving per its OWN declaration after each later definition
+    def eqtext(body, conf="{'annotate': False}"):
+        return custom(body, conf)
+    same_text = [(eqtext("val = Int(3)\n    t = Int(1)"), eqtext("val = Int(5)\n    t = Int(1)")),
+                 (eqtext("val = Int(3)\n    t = Int(1)", "{'annotate': False, 'endianness': 'big'}"), eqtext("val = Int(3)\n    t = Int(1)", "{'annotate': False, 'endianness': 'little'}")),
+                 (eqtext("a = Data(3)\n    n = Int(3)"), eqtext("a = Data(3)\n    n = Int(6, signed=True)")),
+                 (eqtext("val = Int(3)"), eqtext("val = Int(3, endianness='little')"))]
+    # (equal generated text: equal cookies, the model's variant number is shared -- except for the pair that differs in the CLASS
+    # configuration, which the cookie covers: those two rewrite the file each time)
+    alias = {v2: v1 for k_, (v1, v2) in enumerate(same_text) if k_ != 1}
+    for v1, v2 in same_text:
+        for bc in (False, True):
+            hists.append([(bc, [dict(variant=v1), dict(variant=v2)])])
+            hists.append([(bc, [dict(variant=v1), dict(variant=v2), dict(variant=v1), dict(variant=v2)])])
+            hists.append([(bc, [dict(variant=v2)]), (bc, [dict(variant=v1), dict(variant=v2)])])
     # ---- survey of the constant the generated module is recognised by: many declarations, any two with the same constant but
     # different code are a collision; each collision found is then run as a history like the ones above
     nsurvey = 1500 if tier == 'quick' else 40000
@@ -149,7 +166,7 @@ def run(tier, seed, rng):
                 obs.append(rew)
         if not forged:
             # the model predicts, for fresh time stamps, exactly which definitions rewrite the cache file
-            hs = "[" + "; ".join(f"({-1 if v == 'Aoff' else (VID[v] if v in VID else cid.setdefault(v, 100 + len(cid)))}, {k + 1}%nat)" for k, v in enumerate(flat)) + "]"
+            hs = "[" + "; ".join(f"({-1 if v == 'Aoff' else (VID[v] if v in VID else cid.setdefault(alias.get(v, v), 100 + len(cid)))}, {k + 1}%nat)" for k, v in enumerate(flat)) + "]"
             lines.append((hs + ", [" + "; ".join('true' if x else 'false' for x in obs) + "]", h))
     files = [(f"c15_{i}", HEADER_COQ + "Definition cases : list (list (Z * nat) * list bool) := [\n" + ";\n".join("(" + l + ")" for l, _ in part) +
               "\n].\nEval vm_compute in (bad 0 cases).\n") for i, part in enumerate(shard(lines, 200))]
